@@ -454,8 +454,21 @@ func c10Program(r *fw.R, d c10Desc) {
 			}()
 			opErr = c.Ping(ctx)
 			peer.Send(wire.Data(wire.OpText, true, []byte("marker")))
-			if rerr := <-rdone; rerr != nil && opErr == nil {
-				opErr = fmt.Errorf("reader that served the ping failed: %w", rerr)
+			select {
+			case rerr := <-rdone:
+				if rerr != nil && opErr == nil {
+					opErr = fmt.Errorf("reader that served the ping failed: %w", rerr)
+				}
+			case <-time.After(45 * time.Second):
+				// (the marker message has been sent: a Read that is still not back is a later call that hangs. Without
+				// this bound such a case ran into the harness watchdog and counted as inconclusive - seen with C10-12.)
+				if over := time.Duration(canaryMax.Load()); over > 5*time.Second {
+					r.Inconclusivef("%s %s op %d: the reader serving a ping had not returned after 45 s, canary overslept %v", d.Role, paramsKey(d.Params), i, over)
+				} else {
+					r.Violate("C10/later-call-hangs-after-earlier-cancellations/read", fmt.Sprintf("%s %s op %d/%d %+v: the Read that serves this Ping had not returned 45 s after its marker message was sent (every context cancelled so far belonged to a call that had already returned)", d.Role, paramsKey(d.Params), i, len(d.Ops), op), "")
+				}
+				rcancel()
+				return
 			}
 			rcancel() // cancelled after its Read returned successfully: must be harmless too
 			r.Count("ops_with_context_cancelled_after_return", 1)
